@@ -56,6 +56,8 @@ def run(ctx):
         kind = shapes.DEFINED[it % len(shapes.DEFINED)]
         S, d = shapes.make(rng, kind, rng.randint(-3, 3), rng.randint(-3, 3), drv)
         tok = shapes.enc_desc(d)
+        S, hist = shapes.vary_history(rng, S, d)
+        ctx.count("history:" + hist)
         usefloat = it % 5 == 4
         if usefloat:
             verts = shapes.desc_points(d)
